@@ -324,9 +324,11 @@ def getattr_sym(I, st, v, name, fr, k):
             owner, ent = r
             if ent["kind"] == "property":
                 fv = I._member(st, owner, {**ent, "kind": "method"}, None, fr)
-                return I.call(st, fv, [v], {}, fr, k)
+                return I.branch(st, is_none(t), lambda s2: I.raise_(s2, "builtins.AttributeError", f"None.{name}"),
+                                lambda s2: I.call(s2, fv, [v], {}, fr, k))
             if ent["kind"] in ("method", "static", "classmethod", "const"):
-                return k(st, I._member(st, owner, ent, v, fr))
+                return I.branch(st, is_none(t), lambda s2: I.raise_(s2, "builtins.AttributeError", f"None.{name}"),
+                                lambda s2: k(s2, I._member(s2, owner, ent, v, fr)))
             if ent["kind"] == "slot":
                 pass        # C-level instance slot (e.g. BaseException.__traceback__): a field read
             elif ent["kind"] == "other" and not _is_instance_field(I, hint, name):
@@ -1003,6 +1005,14 @@ def b_cast(I, st, args, kwargs, fr, k):
     return k(st, args[1])
 
 
+def b_namedtuple_new(I, st, args, kwargs, fr, k):
+    cls = args[0]
+    if not isinstance(cls, ClassV):
+        raise Unsupported("super().__new__ with a symbolic class")
+    kw = dict(kwargs); kw["$raw"] = True
+    return construct(I, st, cls.q, list(args[1:]), kw, fr, k)
+
+
 def b_sleep(I, st, args, kwargs, fr, k):
     st.events.append(("Sleep", {"s": args[0]}))
     st.version += 1
@@ -1126,11 +1136,17 @@ BUILTINS = {
     "min": b_minmax("min"), "max": b_minmax("max"), "len": b_len, "reversed": b_reversed,
     "time.monotonic": b_monotonic, "time.sleep": b_sleep, "random.random": b_random,
     "socket.getdefaulttimeout": b_getdefaulttimeout, "_socket.getdefaulttimeout": b_getdefaulttimeout,
+    "$namedtuple_new": b_namedtuple_new,
     "typing.cast": b_cast, "any": b_any_all(True), "all": b_any_all(False), "getattr": b_getattr,
 }
 for _n in ("debug", "info", "warning", "error", "exception", "log"):
     BUILTINS[f"logging.Logger.{_n}"] = b_log
 BUILTINS["sys.audit"] = b_log
+
+def _late_regex():
+    from . import regex
+    BUILTINS.update({"re.Match.groups": regex.b_match_groups, "re.Match.group": regex.b_match_group, "re.Match.span": regex.b_match_span})
+
 
 CONSTRUCTORS = {
     "builtins.float": b_float, "builtins.int": b_int, "builtins.bool": b_bool, "builtins.list": b_list,
@@ -1141,6 +1157,8 @@ CONSTRUCTORS = {
 
 
 def call_builtin(I, st, name, args, kwargs, fr, k):
+    if "re.Match.groups" not in BUILTINS:
+        _late_regex()
     f = BUILTINS.get(name)
     if f is None:
         raise Unsupported(f"no model or contract for builtin {name}")
@@ -1162,6 +1180,11 @@ def construct(I, st, q, args, kwargs, fr, k):
     ent = I.w.facts["classes"].get(q)
     if ent is None:
         raise Unsupported(f"constructor of unknown class {q}")
+    own_new = I.w.funcs.get(f"{q}.__new__")
+    if own_new is not None and not kwargs.get("$raw"):
+        fv = FuncV(own_new.q, own_new.node, own_new.module, own_new.cls, kind="static")
+        return I.call(st, fv, [ClassV(q)] + list(args), kwargs, fr, k)
+    kwargs = {k_: v_ for k_, v_ in kwargs.items() if k_ != "$raw"}
     if ent.get("namedtuple_fields"):
         fields = ent["namedtuple_fields"]
         vals = dict(zip(fields, args)); vals.update(kwargs)
@@ -1220,6 +1243,8 @@ def call_method(I, st, recv, name, func, args, kwargs, fr, k):
         c = I.reg.contracts.get(func.name)
         if c is not None:
             return I.apply_contract(st, c, None, [recv] + list(args), kwargs, fr, k)
+        if "re.Match.groups" not in BUILTINS:
+            _late_regex()
         f = BUILTINS.get(func.name)
         if f is not None:
             return f(I, st, [recv] + list(args), kwargs, fr, k)
